@@ -59,6 +59,7 @@ def plan(tier, seed):
             line_yields=rnd.random() < 0.6,
             concurrent_starts=rnd.random() < 0.5,
             create=rnd.choice(["target", "target", "subclass", "context", "lazy"]),
+            failing_first_start=rnd.random() < 0.35,
         )
         cfg["expect_procs"] = 1 + cfg["children"] * (1 + cfg["grandchildren"]) if rnd.random() < 0.75 else 0
         shards.append(dict(persona="other", persona_kw=dict(name="foot", version="1.16.2", xtversion=True), seed=seed, index=i, cfg=cfg, winsize=[80, 24, 640, 384]))
@@ -173,6 +174,14 @@ def run_shard(shard, env):
             procs_lock = threading.Lock()
             nstart = cfg["children"]
             gate = threading.Barrier(nstart) if cfg.get("concurrent_starts") and nstart > 1 else None
+
+            if cfg.get("failing_first_start") and cfg["method"] != "fork":
+                # the very first start of this process fails while the other threads are
+                # at work (one of them may be inside a synchronized call at that moment)
+                time.sleep(rnd.uniform(0, 0.01))
+                for _ in range(rnd.randint(1, 2)):
+                    if cc.failing_start():
+                        res.count("Process.start() calls that failed (unpicklable argument)")
 
             def start_one(j):
                 p = cc.make_process(cfg, (cfg, "c%d" % j, seed * 3 + j, 1))
